@@ -5,6 +5,7 @@
  *         P<tag> myth_wsapi_runqueue_push      O   myth_wsapi_runqueue_pop
  *         W0/W1  myth_wsapi_runqueue_take(0, decide, .) with a declining / accepting callback
  *         S<tag> myth_wsapi_runqueue_pass(0, .)
+ *         Q      myth_wsapi_runqueue_peek(0, NULL, NULL)   (hint cache refill + seqlock read)
  *       Each output line starts with the snapshot before the first op:  @<top>,<base>,...:<slots>
  *       After every op:  |<op>=<result>:<top>,<base>,<lock>,<wc.seq>,<wc.ptr>:<slot tags>:<fences>
  *       (library built with -DMYTH_VERIF_QUEUE_SIZE=16, so the run queue has 16 slots).
@@ -23,12 +24,15 @@
 #include "myth_worker_func.h"
 #include "myth_wsqueue_func.h"
 
-static char dummy[1 << 16];
-static myth_thread_t tag2p(long tag) { return tag ? (myth_thread_t)(dummy + tag) : NULL; }
+/* tagged descriptors: real (zeroed) struct myth_thread objects, because the wsapi peek reads the
+   hint fields (custom_data_ptr / custom_data_size) of its candidate */
+#define NDESC 1024
+static struct myth_thread descs[NDESC];
+static myth_thread_t tag2p(long tag) { return (tag > 0 && tag < NDESC) ? &descs[tag] : NULL; }
 static long p2tag(const void * p) {
   if (!p) return 0;
-  if ((const char *)p < dummy || (const char *)p >= dummy + sizeof(dummy)) return -1;
-  return (const char *)p - dummy;
+  if ((const struct myth_thread *)p < descs || (const struct myth_thread *)p >= descs + NDESC) return -1;
+  return (const struct myth_thread *)p - descs;
 }
 
 static char fences[4096];
@@ -63,6 +67,7 @@ static int do_seq(void) {
       case 'O': r = p2tag(myth_wsapi_runqueue_pop()); break;
       case 'W': r = p2tag(myth_wsapi_runqueue_take(0, tok[1] == '1' ? decide_yes : decide_no, &seen)); break;
       case 'S': r = myth_wsapi_runqueue_pass(0, tag2p(tag)); break;
+      case 'Q': r = p2tag(myth_wsapi_runqueue_peek(0, 0, 0)); break;
       default: r = -9;
       }
       g_myth_verif_cb = 0;
